@@ -22,10 +22,11 @@ META = {
         "receiving a config hands that very object to the package constructors it calls, so the version of the caller's Config "
         "(not the shared DEFAULT) decides the form for every server class and transport; C13.7 (shared with C14.4) jsonrpc.dump builds its "
         "Payload with the caller's version, defaulting to the version of the config argument it was given - the per-request adapter - "
-        "and of nothing else (not the configuration stored in a Fault returned by user code). C13.8 (imported from C02.1) no exception escapes the per-request dispatch into do_POST, whose request-less fault is built with the server's configuration - i.e. in the server's form whatever the request's version was."),
+        "and of nothing else (not the configuration stored in a Fault returned by user code). C13.8 (imported from C02.1) no exception escapes the per-request dispatch into do_POST, whose request-less fault is built with the server's configuration - i.e. in the server's form whatever the request's version was. C13.9 (imported from C03.3) _marshaled_single_dispatch never hands a Fault object back to its caller: the caller's `isinstance(.., Fault)` branches dump a Fault with the Fault's own configuration (DEFAULT for a Fault built by application code), not with the per-request one."),
     "does_not_decide": "isolation between concurrently served requests as an observed behaviour (only the absence "
                        "of shared mutable serving state is decided).",
-    "rules": {"C13.8": "imported C02.1 (E4 may-raise closure of the serving path)",
+    "rules": {"C13.9": "imported C03.3 (dead Fault branch of the batch loop)",
+              "C13.8": "imported C02.1 (E4 may-raise closure of the serving path)",
               "C13.1": "provenance / ownership of the receiver of every Config-field store (E3)",
               "C13.2": "sibling agreement Config.__init__ <-> Config.copy",
               "C13.3": "call-graph closure from the serving entry points + store scan with receiver provenance",
@@ -337,3 +338,27 @@ def check(ck):
     from rules import c02 as _c02e, common as _cme
     _cme.import_rules(ck, _c02e, {"C02.1": "C13.8"})
     ck.floor("C13.8", 10)
+
+    # ---- C13.4 (continued) what the single dispatch hands back is already a finished reply ------------------------------------
+    # Every result of _marshaled_single_dispatch is None or the output of jsonrpclib.dump(..., config=<per-request config>): an
+    # object handed back as it is (a Fault returned by _dispatch) would be dumped by the caller's `isinstance(.., Fault)` branch
+    # with the Fault's own configuration - DEFAULT for a Fault built by application code - whatever the request's form.
+    fsd = prog.func(SRV, DISP + "._marshaled_single_dispatch")
+    n_ret = 0
+    for (rn_, e_) in q.return_sources(fsd):
+        n_ret += 1
+        if e_ is None or q.is_none_expr(e_):
+            continue
+        fin = isinstance(e_, ast.Call) and (dump(e_.func) in ("jsonrpclib.dump", "jsonrpclib.jsonrpc.dump", "dump") or
+                                            (isinstance(e_.func, ast.Attribute) and e_.func.attr in ("dump", "response")))
+        ck.require(fin, "C13.4", "%s: result `%s`" % (q.fn(fsd), dump(e_)[:40]), "None or a dumped reply",
+                   "_marshaled_single_dispatch hands `%s` back undumped: the caller's Fault branch then builds the reply with the object's own "
+                   "configuration instead of the one derived from the request (a 1.0 request is answered in 2.0 form, or the reverse)" % dump(e_)[:50],
+                   q.loc(fsd, rn_))
+    if n_ret < 2:
+        raise AnalysisError("anchor vanished: results of _marshaled_single_dispatch (found %d)" % n_ret)
+
+    # ---- C13.9 no Fault object is dumped with its own configuration (shared with C03.3) -----------------------------------------
+    from rules import c03 as _c03f
+    common.import_rules(ck, _c03f, {"C03.3": "C13.9"})
+    ck.floor("C13.9", 2)
